@@ -23,6 +23,24 @@ class _Break(Exception):
     pass
 
 
+class _Continue(Exception):
+    pass
+
+
+class ListIter:
+    """iterator state over a finite list of abstract elements"""
+
+    def __init__(self, items):
+        self.items = list(items)
+        self.pos = 0
+
+    def next(self):
+        if self.pos < len(self.items):
+            self.pos += 1
+            return some(self.items[self.pos - 1])
+        return NONE
+
+
 class V(tuple):
     """enum value: V(("Option::Some", (x,)))"""
     def __new__(cls, name, args=()):
@@ -70,11 +88,13 @@ def vname(res):
 
 
 class Interp:
-    def __init__(self, effect=None, call=None, max_steps=20000):
+    def __init__(self, effect=None, call=None, max_steps=20000, prog=None):
         """effect(node, interp, env) -> value or None: called for macro expansions and calls the interpreter does not model;
         returning None means 'cannot model' (Undecided)."""
         self.effect = effect
         self.call = call
+        self.prog = prog          # when given, calls to crate functions that the hooks do not answer are interpreted too
+        self.depth = 0
         self.effects = []
         self.steps = 0
         self.max_steps = max_steps
@@ -130,7 +150,23 @@ class Interp:
             return False
         if k == "PStruct":
             if isinstance(v, V):
-                return v.name == vname(p["res"])
+                if v.name != vname(p["res"]):
+                    return False
+                for f in p.get("fields", []):
+                    if f["name"].isdigit() and int(f["name"]) < len(v.args):
+                        if not self.match_pat(f["pat"], v.args[int(f["name"])], env):
+                            return False
+                    elif f["pat"]["k"] in ("Bind",):
+                        env[f["pat"]["id"]] = Opaque("field " + f["name"])
+                return True
+            if isinstance(v, dict):
+                for f in p.get("fields", []):
+                    if f["name"] in v:
+                        if not self.match_pat(f["pat"], v[f["name"]], env):
+                            return False
+                    else:
+                        raise Undecided("struct pattern field %s" % f["name"])
+                return True
             raise Undecided("struct pattern")
         if k == "PRange":
             lo = p.get("lo", {}).get("v")
@@ -244,8 +280,6 @@ class Interp:
                 return self.ev(n["e"], env)
             return ()
         if k == "Match":
-            if n.get("src") == "TryDesugar":
-                raise Undecided("`?` operator")
             v = self.ev(n["scrut"], env)
             for a in n["arms"]:
                 e2 = _child(env)
@@ -257,6 +291,27 @@ class Interp:
             raise Undecided("no arm of `%s` matches %r" % (render(n), v))
         if k == "Closure":
             return Closure(n, env)
+        if k == "Loop":
+            for _ in range(64):
+                try:
+                    self.ev(n["body"], env)
+                except _Break:
+                    return ()
+                except _Continue:
+                    continue
+            raise Undecided("loop does not end within 64 rounds")
+        if k == "Break":
+            raise _Break()
+        if k == "Continue":
+            raise _Continue()
+        if k == "AssignOp":
+            l = n["l"]
+            if l["k"] == "Path" and l.get("rk") == "Local" and l["res"] in env:
+                a, b = env[l["res"]], self.ev(n["r"], env)
+                if isinstance(a, (int, float, str)) and isinstance(b, (int, float, str)) and n["op"] in ("+=", "-=", "*="):
+                    env[l["res"]] = a + b if n["op"] == "+=" else (a - b if n["op"] == "-=" else a * b)
+                    return ()
+            raise Undecided("compound assignment %s" % render(n)[:60])
         if k == "Ret":
             raise _Return(self.ev(n["e"], env) if "e" in n else ())
         if k == "Let":
@@ -318,6 +373,15 @@ class Interp:
             return r.v
 
     def mcall(self, n, env):
+        if n["m"] in ("push", "push_str") and len(n["args"]) == 1:
+            r = n["recv"]
+            while r["k"] in ("Ref",) or (r["k"] == "Un" and r["op"] == "*"):
+                r = r["e"]
+            if r["k"] == "Path" and r.get("rk") == "Local" and r["res"] in env and isinstance(env[r["res"]], str):
+                a = self.ev(n["args"][0], env)
+                if isinstance(a, str):
+                    env[r["res"]] = env[r["res"]] + a
+                    return ()
         if n.get("exp") and not str(n.get("mac", "")).startswith("desugar:") and self.effect is not None:
             r = self.effect(n, self, env)
             if r is not None:
@@ -331,6 +395,10 @@ class Interp:
         if isinstance(recv, str) and not n["args"] and m in ("to_lowercase", "to_ascii_lowercase", "to_uppercase", "to_ascii_uppercase", "trim", "is_empty", "len"):
             return {"to_lowercase": recv.lower, "to_ascii_lowercase": recv.lower, "to_uppercase": recv.upper, "to_ascii_uppercase": recv.upper,
                     "trim": recv.strip, "is_empty": lambda: recv == "", "len": lambda: len(recv.encode())}[m]()
+        if isinstance(recv, str) and len(n["args"]) == 2 and m == "replace":
+            a, b = self.ev(n["args"][0], env), self.ev(n["args"][1], env)
+            if isinstance(a, str) and isinstance(b, str):
+                return recv.replace(a, b)
         if isinstance(recv, str) and len(n["args"]) == 1 and m in ("starts_with", "ends_with", "contains", "eq_ignore_ascii_case"):
             a = self.ev(n["args"][0], env)
             if isinstance(a, str):
@@ -362,11 +430,35 @@ class Interp:
             if m == "is_some_and":
                 return self._bool(r, n)
             return recv if self._bool(r, n) else NONE
+        if isinstance(recv, (list, ListIter)) and not n["args"]:
+            items = recv if isinstance(recv, list) else recv.items[recv.pos:]
+            if m in ("iter", "into_iter", "iter_mut", "by_ref", "cloned", "copied"):
+                return list(items)
+            if m == "enumerate":
+                return [(i, x) for i, x in enumerate(items)]
+            if m == "len" or m == "count":
+                return len(items)
+            if m == "is_empty":
+                return len(items) == 0
+            if m == "rev":
+                return list(reversed(items))
+            if m == "next" and isinstance(recv, ListIter):
+                return recv.next()
+        if isinstance(recv, tuple) and recv and recv[0] == "range" and not n["args"] and m in ("into_iter", "iter"):
+            return list(range(recv[1], recv[2] + (1 if recv[3] else 0)))
         if m == "contains" and len(n["args"]) == 1 and isinstance(recv, tuple) and recv and recv[0] == "range":
             x = self.ev(n["args"][0], env)
             return recv[1] <= x and (x <= recv[2] if recv[3] else x < recv[2])
+        argv = None
         if self.call is not None:
-            r = self.call(n, recv, [self.ev(a, env) for a in n["args"]], self, env)
+            argv = [self.ev(a, env) for a in n["args"]]
+            r = self.call(n, recv, argv, self, env)
+            if r is not None:
+                return r[0]
+        if self.prog is not None:
+            if argv is None:
+                argv = [self.ev(a, env) for a in n["args"]]
+            r = self.crate_call(n, [recv] + argv)
             if r is not None:
                 return r[0]
         if self.effect is not None:
@@ -375,7 +467,61 @@ class Interp:
                 return r[0]
         raise Undecided("method %s on %r (%s)" % (m, recv, render(n)[:80]))
 
+    def format_macro(self, n, env):
+        """value of a `format!(..)` expansion whose arguments evaluate to text / numbers (only `{}` placeholders)"""
+        from hirq import fmt_templates, walk
+        ts = fmt_templates(n)
+        if len(ts) != 1 or "{:" in ts[0][0]:
+            return None
+        tup = None
+        for x in walk(n):
+            if x["k"] == "Let" and x.get("init") is not None and x["init"]["k"] == "Tup":
+                tup = x["init"]
+                break
+        vals = [self.ev(e, env) for e in tup["es"]] if tup is not None else []
+        if not all(isinstance(v, (str, int, float)) and not isinstance(v, bool) for v in vals):
+            return None
+        out, i = "", 0
+        parts = ts[0][0].split("{}")
+        if len(parts) - 1 != len(vals):
+            return None
+        for k, part in enumerate(parts):
+            out += part
+            if k < len(vals):
+                out += str(vals[k])
+        return out
+
     def fcall(self, n, env):
+        if str(n.get("callee", "")).endswith("hint::must_use") and len(n["args"]) == 1:
+            return self.ev(n["args"][0], env)
+        cal = str(n.get("callee", ""))
+        if cal.endswith("IntoIterator::into_iter") and len(n["args"]) == 1:
+            v = self.ev(n["args"][0], env)
+            if isinstance(v, tuple) and v and v[0] == "range":
+                v = list(range(v[1], v[2] + (1 if v[3] else 0)))
+            if isinstance(v, list):
+                return ListIter(v)
+            if isinstance(v, ListIter):
+                return v
+            raise Undecided("iteration over %r" % (v,))
+        if cal.endswith("Iterator::next") and len(n["args"]) == 1:
+            v = self.ev(n["args"][0], env)
+            if isinstance(v, ListIter):
+                return v.next()
+            raise Undecided("next on %r" % (v,))
+        if cal.endswith("Try::branch") and len(n["args"]) == 1:
+            v = self.ev(n["args"][0], env)
+            if isinstance(v, V) and v.name in ("Result::Ok", "Option::Some"):
+                return V("ControlFlow::Continue", [v.args[0] if v.args else ()])
+            if isinstance(v, V) and v.name in ("Result::Err", "Option::None"):
+                return V("ControlFlow::Break", [v])
+            raise Undecided("`?` on %r" % (v,))
+        if cal.endswith("FromResidual::from_residual") and len(n["args"]) == 1:
+            return self.ev(n["args"][0], env)
+        if n.get("mac") == "format" and str(n.get("callee", "")).endswith("fmt::format"):
+            v = self.format_macro(n, env)
+            if v is not None:
+                return v
         if str(n.get("callee", "")).endswith("RangeInclusive::new"):
             a, b = [self.ev(x, env) for x in n["args"]]
             return ("range", a, b, True)
@@ -385,6 +531,8 @@ class Interp:
                 return r[0]
         if n.get("ctor"):
             return V(vname(n["callee"]), [self.ev(a, env) for a in n["args"]])
+        if short(n.get("callee", ""), 2) in ("String::new", "String::with_capacity"):
+            return ""
         if len(n["args"]) == 1 and (str(n.get("callee", "")).endswith("From<&str>>::from") or short(n.get("callee", ""), 2) in ("String::from", "From::from", "ToOwned::to_owned", "ToString::to_string")):
             a = self.ev(n["args"][0], env)
             if isinstance(a, str):
@@ -392,8 +540,16 @@ class Interp:
         f = n["f"]
         if f["k"] == "Path" and f.get("rk") == "Local":
             return self.apply(self.ev(f, env), [self.ev(a, env) for a in n["args"]])
+        argv = None
         if self.call is not None:
-            r = self.call(n, None, [self.ev(a, env) for a in n["args"]], self, env)
+            argv = [self.ev(a, env) for a in n["args"]]
+            r = self.call(n, None, argv, self, env)
+            if r is not None:
+                return r[0]
+        if self.prog is not None:
+            if argv is None:
+                argv = [self.ev(a, env) for a in n["args"]]
+            r = self.crate_call(n, argv)
             if r is not None:
                 return r[0]
         if self.effect is not None:
@@ -401,6 +557,25 @@ class Interp:
             if r is not None:
                 return r[0]
         raise Undecided("call %s" % render(n)[:80])
+
+    def crate_call(self, n, args):
+        """interpret a call to a function of the analysed crate (bounded depth)"""
+        callee = n.get("callee")
+        if self.prog is None or not callee or callee not in self.prog.fns or self.depth > 12:
+            return None
+        f = self.prog.fns[callee]
+        h = self.prog.hir(callee)
+        if h is None or "params" not in f or len(f["params"]) != len(args) or not all(p.get("k") == "Bind" for p in f["params"]):
+            return None
+        env = {p["id"]: a for p, a in zip(f["params"], args)}
+        self.depth += 1
+        try:
+            try:
+                return (self.ev(h, env),)
+            except _Return as r:
+                return (r.v,)
+        finally:
+            self.depth -= 1
 
     def run(self, body, env):
         try:
@@ -456,9 +631,9 @@ class LazyEnv(dict):
         return v
 
 
-def eval_in(hir, node, by_name, call=None, effect=None):
+def eval_in(hir, node, by_name, call=None, effect=None, prog=None):
     """evaluate `node` (an expression inside function body `hir`) with the named locals bound as given"""
     from hirq import Locals
-    it = Interp(call=call, effect=effect)
+    it = Interp(call=call, effect=effect, prog=prog)
     env = LazyEnv(it, Locals(hir), by_name)
     return it.run(node, env)
